@@ -423,6 +423,18 @@ fn c01_like(tier: Tier, oracles: Oracles, with_drop: bool) -> Vec<Scenario> {
     } else {
         out.extend(subset_split_scenarios(oracles, 9));
     }
+    // the read-API probes at the end of / after every transaction are quadratic in the bucket size:
+    // not for the bulk and huge-value families; the subset family is probed inside the transaction only
+    for sc in out.iter_mut() {
+        if sc.name.starts_with("bulk") || sc.name.starts_with("huge") {
+            sc.oracles.probe_in_tx_end = None;
+            sc.oracles.probe_after_commit = None;
+        }
+        if sc.name.starts_with("subset") {
+            // inside the deleting transaction only (emptied leaves exist only there)
+            sc.oracles.probe_after_commit = None;
+        }
+    }
     out
 }
 
@@ -530,7 +542,7 @@ fn c06_scenarios(tier: Tier) -> Vec<Scenario> {
 
 pub fn scenarios(prop: &str, tier: Tier) -> Vec<Scenario> {
     match prop {
-        "C01" => c01_like(tier, Oracles { rets: true, dump_after: true, reopen_copy: true, dump_in_tx: true, ..Oracles::NONE }, true),
+        "C01" => c01_like(tier, Oracles { rets: true, dump_after: true, reopen_copy: true, dump_in_tx: true, probe_in_tx_end: Some(ProbeCfg::LIGHT), probe_after_commit: Some(ProbeCfg { gets: false, ..ProbeCfg::LIGHT }), ..Oracles::NONE }, true),
         "C05" => c01_like(tier, Oracles { fileck: true, dbcheck: true, ..Oracles::NONE }, false),
         "C07" => c01_like(tier, Oracles { rets: true, probe_each_op: Some(ProbeCfg::LIGHT), kept_cursor: true, ..Oracles::NONE }, false),
         "C06" => c06_scenarios(tier),
